@@ -90,6 +90,7 @@ func (w *World) slotOf(u string) int {
 func (w *World) Step(o HistOpts) string {
 	r := w.rng
 	w.step++
+	w.lastPut = nil
 	kind := o.Mix.pick(r, w)
 	live := w.m.Live()
 	if len(live) == 0 && (kind == "upd" || kind == "noop" || kind == "del" || kind == "sdel") {
@@ -206,12 +207,13 @@ func (w *World) Step(o HistOpts) string {
 		clockSettle()
 		w.abs("create")
 	case "flush":
+		commitToo := r.Bool()
 		if w.cfg.Async == 0 {
-			w.abs("flush-skip")
+			w.abs("flush")
 			break
 		}
 		var err error
-		if r.Bool() {
+		if !commitToo {
 			w.logf("FlushAll")
 			w.call("FlushAll", func() { err = w.db.FlushAll(&Rec{}) })
 		} else {
